@@ -717,10 +717,172 @@ static int family_enum_pitch(Choice& c, Report& rep, Flags& fl) {
   return 0;
 }
 
+
+// ---- real silk_decode_frame over histories (resets, rate switches, lost frames, LBRR requests) -------------------------
+// State maintenance between frames is the library's own here (the params/bitstream families emulate it).  Oracles:
+//  * the frozen snapshot's silk_decode_frame driven by the identical call sequence returns the same sample count and the same
+//    16-bit samples (the speech-layer decoder is integer-exact; its own state lives in a separately allocated, generously sized
+//    block so that only outputs are compared);
+//  * harness-tracked history: the first frame decoded after a reset (initialisation or an internal-rate change) has nothing to
+//    interpolate with, however many frames were concealed in between, so its interpolation factor must have been forced to 4;
+//  * the vector kept for the next interpolation satisfies the codebook spacing, the lag kept for the next frame is legal.
+extern "C" {
+opus_int ref_silk_init_decoder(silk_decoder_state* psDec);
+opus_int ref_silk_decoder_set_fs(silk_decoder_state* psDec, opus_int fs_kHz, opus_int32 fs_API_Hz);
+opus_int ref_silk_decode_frame(silk_decoder_state* psDec, ec_dec* psRangeDec, opus_int16 pOut[], opus_int32* pN, opus_int lostFlag, opus_int condCoding, int arch);
+void ref_ec_dec_init(ec_dec* _this, unsigned char* _buf, opus_uint32 _storage);
+}
+static int family_frames(Choice& c, Report& rep, Flags& fl) {
+  (void)fl;
+  silk_decoder_state& st = g_dec;
+  static silk_decoder_state* rst = (silk_decoder_state*)calloc(1, sizeof(silk_decoder_state) + 16384);
+  silk_init_decoder(&st); ref_silk_init_decoder(rst);
+  int fs = FS[c.irange(0, 2)], nb = c.boolean() ? 4 : 2;
+  st.nb_subfr = nb; rst->nb_subfr = nb;
+  silk_decoder_set_fs(&st, fs, 48000); ref_silk_decoder_set_fs(rst, fs, 48000);
+  bool decoded_since_reset = false;
+  int npk = 1 + c.irange(0, 7), frames = 0, lost = 0, first_after_loss = 0, interp_used = 0, switches = 0, lbrr_req = 0;
+  for (int p = 0; p < npk; p++) {
+    if (p && c.chance(40)) {
+      int nfs = FS[c.irange(0, 2)], nnb = c.boolean() ? 4 : 2;
+      if (nfs != fs) { switches++; decoded_since_reset = false; }
+      fs = nfs; nb = nnb;
+      st.nb_subfr = nb; rst->nb_subfr = nb;
+      silk_decoder_set_fs(&st, fs, 48000); ref_silk_decoder_set_fs(rst, fs, 48000);
+    }
+    if (c.chance(16)) { silk_init_decoder(&st); ref_silk_init_decoder(rst); st.nb_subfr = nb; rst->nb_subfr = nb; silk_decoder_set_fs(&st, fs, 48000); ref_silk_decoder_set_fs(rst, fs, 48000); decoded_since_reset = false; }
+    const int L = st.frame_length;
+    int nfr = nb == 4 ? 1 + c.irange(0, 2) : 1;
+    int mode = c.irange(0, 9);            // 0..5 decode, 6..7 whole packet lost, 8..9 FEC request (LBRR flags by choice)
+    int lostFlag = mode <= 5 ? FLAG_DECODE_NORMAL : mode <= 7 ? FLAG_PACKET_LOST : FLAG_DECODE_LBRR;
+    int len = 1 + c.irange(0, 120);
+    HeapBuf<uint8_t> buf(len), rbuf(len);
+    c.bytes(buf.p, len); memcpy(rbuf.p, buf.p, len);
+    ec_dec dec, rdec;
+    ec_dec_init(&dec, buf.p, (opus_uint32)len); ref_ec_dec_init(&rdec, rbuf.p, (opus_uint32)len);
+    st.nFramesPerPacket = nfr; rst->nFramesPerPacket = nfr;
+    for (int f = 0; f < nfr; f++) { int v = c.boolean(), l = c.boolean(); st.VAD_flags[f] = v; rst->VAD_flags[f] = v; st.LBRR_flags[f] = l; rst->LBRR_flags[f] = l; }
+    if (lostFlag == FLAG_DECODE_LBRR) lbrr_req++;
+    for (int f = 0; f < nfr; f++) {
+      int cond = f == 0 ? CODE_INDEPENDENTLY : (c.chance(40) ? CODE_INDEPENDENTLY_NO_LTP_SCALING : CODE_CONDITIONALLY);
+      const bool decodes = lostFlag == FLAG_DECODE_NORMAL || (lostFlag == FLAG_DECODE_LBRR && st.LBRR_flags[f] == 1);
+      if (!decodes && lostFlag == FLAG_DECODE_LBRR) cond = CODE_INDEPENDENTLY;
+      st.nFramesDecoded = f; rst->nFramesDecoded = f;
+      HeapBuf<opus_int16> out(L), rout(L);
+      for (int i = 0; i < L; i++) { out[i] = 0x5555; rout[i] = 0x5555; }
+      opus_int32 n = -1, rn = -1;
+      const int lossCnt_before = st.lossCnt;
+      int r1 = silk_decode_frame(&st, &dec, out.p, &n, decodes ? lostFlag : FLAG_PACKET_LOST, cond, 0);
+      int r2 = ref_silk_decode_frame(rst, &rdec, rout.p, &rn, decodes ? lostFlag : FLAG_PACKET_LOST, cond, 0);
+      rep.count(2);
+      VP_REQUIRE(r1 == r2 && n == rn && n == L, "c18:frame-differs-from-frozen-decoder", "packet %d frame %d (fs=%d nb=%d flag=%d cond=%d): return %d/%d samples %d/%d, frame length %d", p, f, fs, nb, lostFlag, cond, r1, r2, (int)n, (int)rn, L);
+      for (int i = 0; i < L; i++)
+        VP_REQUIRE(out[i] == rout[i], "c18:frame-differs-from-frozen-decoder", "packet %d frame %d (fs=%d kHz nb_subfr=%d flag=%d cond=%d, %d frames concealed before): sample %d is %d, frozen decoder %d", p, f, fs, nb, lostFlag, cond, lossCnt_before, i, out[i], rout[i]);
+      if (decodes) {
+        frames++;
+        if (!decoded_since_reset) {
+          VP_REQUIRE(st.indices.NLSFInterpCoef_Q2 == 4, "c18:interpolation-without-previous-vector", "packet %d frame %d: first frame decoded after a reset (%d frames concealed in between) was interpolated with factor %d against an undefined previous vector", p, f, lossCnt_before, st.indices.NLSFInterpCoef_Q2);
+          if (lossCnt_before) first_after_loss++;
+        } else if (st.indices.NLSFInterpCoef_Q2 < 4) interp_used++;
+        decoded_since_reset = true;
+        const int16_t* dm = st.LPC_order == 16 ? c18::DMIN_WB : c18::DMIN_NB_MB;
+        const int d = st.LPC_order;
+        bool ok = st.prevNLSF_Q15[0] >= dm[0] && 32768 - st.prevNLSF_Q15[d - 1] >= dm[d];
+        for (int i = 1; i < d; i++) ok = ok && st.prevNLSF_Q15[i] - st.prevNLSF_Q15[i - 1] >= dm[i];
+        VP_REQUIRE(ok, "c18:kept-nlsf-spacing", "packet %d frame %d: vector kept for interpolation violates the spacing: [%s]", p, f, vstr(st.prevNLSF_Q15, d).c_str());
+        VP_REQUIRE(st.lossCnt == 0, "c18:loss-count-after-decoded-frame", "lossCnt %d", st.lossCnt);
+      } else lost++;
+      VP_REQUIRE(st.lagPrev == 0 || st.lagPrev == 100 || (st.lagPrev >= 2 * fs && st.lagPrev <= 18 * fs), "c18:kept-lag", "lag kept for the next frame is %d at %d kHz (legal: 0 = unvoiced, [%d,%d])", st.lagPrev, fs, 2 * fs, 18 * fs);
+    }
+  }
+  rep.label("family:frames-history");
+  if (lost) rep.label("frames-concealed");
+  if (first_after_loss) rep.label("frames-first-decode-after-reset-and-loss");
+  if (interp_used) rep.label("frames-interpolated");
+  if (switches) rep.label("frames-rate-switch");
+  if (lbrr_req) rep.label("frames-lbrr-request");
+  rep.note("silk_decode_frame history: %d packets, %d decoded frames, %d concealed, %d rate switches, %d first-after-reset-and-loss, last fs=%d kHz nb_subfr=%d", npk, frames, lost, switches, first_after_loss, fs, nb);
+  if (frames >= 2 || lost) rep.nontrivial();
+  rep.fingerprint(12); rep.fingerprint(fnv1a(c.d, c.n));
+  return 0;
+}
+
+// ---- encoder pitch analysis vs decoder lag reconstruction ----------------------------------------------------------------
+// "Quantising parameters on the encoder side and dequantising them gives the same values the decoder will reconstruct": the lags the
+// pitch estimator hands to the rest of the encoder must be exactly what silk_decode_pitch rebuilds from the two indices it emits.
+#ifdef FIXED_POINT
+extern "C" opus_int silk_pitch_analysis_core(const opus_int16* frame, opus_int* pitch_out, opus_int16* lagIndex, opus_int8* contourIndex, opus_int* LTPCorr_Q15, opus_int prevLag,
+                                             const opus_int32 search_thres1_Q16, const opus_int search_thres2_Q13, const opus_int Fs_kHz, const opus_int complexity, const opus_int nb_subfr, int arch);
+#else
+extern "C" opus_int silk_pitch_analysis_core_FLP(const float* frame, opus_int* pitch_out, opus_int16* lagIndex, opus_int8* contourIndex, float* LTPCorr, opus_int prevLag,
+                                                 const float search_thres1, const float search_thres2, const opus_int Fs_kHz, const opus_int complexity, const opus_int nb_subfr, int arch);
+#endif
+static int family_rt_pitch(Choice& c, Report& rep, Flags& fl) {
+  const int fs = FS[c.irange(0, 2)], nb = c.boolean() ? 4 : 2, cx = c.irange(0, 2);
+  const int min_lag = 2 * fs, max_lag = 18 * fs;
+  const int flen = (PE_LTP_MEM_LENGTH_MS + nb * PE_SUBFR_LENGTH_MS) * fs;
+  // periodic excitation with a linearly drifting period: start lag from the whole legal range with both ends favoured
+  int region = c.irange(0, 3);
+  double lag0 = region == 0 ? max_lag - c.irange(0, 3 * fs) * 0.5 : region == 1 ? min_lag + c.irange(0, 2 * fs) * 0.5 : min_lag + c.irange(0, 2 * (max_lag - min_lag)) * 0.5;
+  double drift = (c.irange(0, 40) - 20) * 0.0005 * fs;         // samples of lag per sample of signal: up to +-8 samples over a 16 kHz frame
+  int nharm = 1 + c.irange(0, 7);
+  double noise = c.irange(0, 3) * 0.02, amp = 2000.0 + 1000.0 * c.irange(0, 10);
+  Rng rng(c.u32());
+  std::vector<double> x(flen);
+  double phase = 0;
+  for (int i = 0; i < flen; i++) {
+    double lag = lag0 + drift * (i - flen / 2) / 8.0;
+    if (lag < min_lag * 0.9) lag = min_lag * 0.9;
+    if (lag > max_lag * 1.1) lag = max_lag * 1.1;
+    phase += 1.0 / lag;
+    double v = 0;
+    for (int h = 1; h <= nharm; h++) v += std::sin(2 * M_PI * h * phase) / h;
+    x[i] = amp * (v + noise * rng.gauss());
+  }
+  int prevLag = c.chance(128) ? 0 : (int)lag0 + c.irange(0, 8) - 4;
+  if (prevLag < 0) prevLag = 0;
+  const double t1 = 0.1 + 0.05 * c.irange(0, 14), t2 = 0.1 + 0.05 * c.irange(0, 14);
+  opus_int pitch_out[MAX_NB_SUBFR] = {0, 0, 0, 0};
+  opus_int16 lagIndex = -1; opus_int8 contourIndex = -1;
+#ifdef FIXED_POINT
+  HeapBuf<opus_int16> frame(flen);
+  for (int i = 0; i < flen; i++) { double v = x[i]; frame[i] = (opus_int16)(v > 32767 ? 32767 : v < -32768 ? -32768 : lrint(v)); }
+  opus_int ltp = 0;
+  int unvoiced = silk_pitch_analysis_core(frame.p, pitch_out, &lagIndex, &contourIndex, &ltp, prevLag, (opus_int32)(t1 * 65536), (opus_int)(t2 * 8192), fs, cx, nb, 0);
+#else
+  HeapBuf<float> frame(flen);
+  for (int i = 0; i < flen; i++) frame[i] = (float)x[i];
+  float ltp = 0;
+  int unvoiced = silk_pitch_analysis_core_FLP(frame.p, pitch_out, &lagIndex, &contourIndex, &ltp, prevLag, (float)t1, (float)t2, fs, cx, nb, 0);
+#endif
+  rep.count();
+  rep.label("family:rt-pitch");
+  rep.note("pitch round trip: fs=%d kHz nb_subfr=%d complexity=%d start lag %.1f drift %.4f harmonics %d noise %.2f prevLag %d thresholds %.2f/%.2f -> %s lagIndex=%d contour=%d lags=[%s]", fs, nb, cx, lag0, drift, nharm, noise, prevLag, t1, t2,
+           unvoiced ? "unvoiced" : "voiced", lagIndex, contourIndex, vstr(pitch_out, nb).c_str());
+  rep.fingerprint(13); rep.fingerprint(fs * 100 + nb * 10 + cx); rep.fingerprint((uint64_t)(lag0 * 2) * 4096 + (uint64_t)(int64_t)(drift * 1000 + 2000));
+  if (unvoiced) { rep.label("rt-pitch-unvoiced"); return 0; }
+  rep.label("rt-pitch-voiced");
+  VP_REQUIRE(lagIndex >= 0 && lagIndex < 16 * fs && lagIndex <= max_lag - min_lag && contourIndex >= 0 && contourIndex < c18::contour_count(fs, nb), "c18:rt-pitch-index-domain",
+             "fs=%d nb=%d: the estimator emitted lagIndex %d contour %d outside the coded alphabet", fs, nb, lagIndex, contourIndex);
+  opus_int dec[MAX_NB_SUBFR] = {0, 0, 0, 0};
+  silk_decode_pitch(lagIndex, contourIndex, dec, fs, nb);
+  rep.count();
+  bool clamped = false;
+  for (int k = 0; k < nb; k++) {
+    VP_REQUIRE(pitch_out[k] >= min_lag && pitch_out[k] <= max_lag, "c18:rt-pitch-lag-range", "fs=%d nb=%d: encoder-side lag %d of sub-frame %d outside [%d,%d]", fs, nb, pitch_out[k], k, min_lag, max_lag);
+    VP_REQUIRE(pitch_out[k] == dec[k], "c18:rt-pitch-differs", "fs=%d kHz nb_subfr=%d complexity=%d: the estimator works with lags [%s], the decoder rebuilds [%s] from lagIndex %d contour %d", fs, nb, cx,
+               vstr(pitch_out, nb).c_str(), vstr(dec, nb).c_str(), lagIndex, contourIndex);
+    if (dec[k] == min_lag || dec[k] == max_lag) clamped = true;
+  }
+  if (clamped) { rep.label("rt-pitch-lag-at-limit"); fl.lag_clamped = true; }
+  rep.nontrivial();
+  return 0;
+}
+
 // ---- entry ---------------------------------------------------------------------------------------------
 int vp_case(Choice& c, Report& rep) {
   init_cb();
-  static const int FAMMAP[16] = {0, 1, 2, 3, 4, 5, 6, 7, 8, 9, 10, 11, 0, 1, 5, 6};
+  static const int FAMMAP[16] = {0, 1, 2, 3, 4, 5, 6, 7, 8, 9, 10, 11, 12, 13, 12, 13};
   int fam = FAMMAP[c.byte() & 15];
   if (g_force_family >= 0) fam = g_force_family;
   Flags fl;
@@ -753,6 +915,8 @@ int vp_case(Choice& c, Report& rep) {
     case 6: r = family_bits(c, rep, fl); break;
     case 7: case 8: case 9: r = family_enum_nlsf(fam, c, rep, fl); break;
     case 10: r = family_enum_gains(c, rep, fl); break;
+    case 12: r = family_frames(c, rep, fl); break;
+    case 13: r = family_rt_pitch(c, rep, fl); break;
     default: r = family_enum_pitch(c, rep, fl); break;
   }
   if (fl.stabilised) rep.label("nlsf-stabiliser-active");
